@@ -41,6 +41,17 @@ def machine(init, upd, thr, cap, count_floor=EPS, **kw):
     return g
 
 
+def fit(machine_, case):
+    """fit on the case's data; Dask input runs on the harness-owned executor (generated task order, and when the
+    case says so every task and result round-tripped through cloudpickle as on a worker process)."""
+    from vf import sched
+
+    if case.get("dask"):
+        with sched.owned("random", int(case.get("order_seed", 0)), bool(case.get("isolate", False))):
+            return machine_.fit(data_arg(case))
+    return machine_.fit(data_arg(case))
+
+
 def data_arg(case):
     X = case["X"]
     if case.get("dask"):
@@ -60,6 +71,7 @@ def model_tol(ctx, got, want, X, what, rtol):
 def g_step(draw):
     c = gen.gmm_training_case(draw)
     c["dask"] = gen.boolean(draw)
+    c["isolate"], c["order_seed"] = gen.boolean(draw), gen.integer(draw, 0, 999)
     c["chunks"] = gen.composition(draw, c["X"].shape[0])
     c["count_floor"] = gen.choice(draw, [EPS, EPS, 1e-6])
     c["how"] = gen.presentation(draw)
@@ -71,7 +83,7 @@ def c_step(ctx, case):
     """One EM iteration equals the reference M-step (Bishop 9.24-9.26; conditional variance when means are frozen)."""
     X, init, upd = case["X"], case["init"], case["upd"]
     g = machine(init, upd, None, 1, case["count_floor"])
-    g.fit(data_arg(case))
+    fit(g, case)
     s = ref.gmm_stats(X, init["weights"], init["means"], init["variances"])
     want = ref.ml_mstep(s["n"], s["sum_px"], s["sum_pxx"], X.shape[0], init["weights"], init["means"],
                         init["variances"], upd[0], upd[1], upd[2], case["count_floor"], init["floors"])
@@ -98,6 +110,7 @@ def g_traj(draw):
     c["K"] = gen.integer(draw, 2, 8 if gen.big() else 6)
     c["how"] = gen.presentation(draw)
     c["dask"] = gen.boolean(draw)
+    c["isolate"], c["order_seed"] = gen.boolean(draw), gen.integer(draw, 0, 999)
     c["chunks"] = gen.composition(draw, c["X"].shape[0], max_parts=6)
     return c
 
@@ -118,13 +131,13 @@ def c_traj(ctx, case):
     for k in range(1, K + 1):
         cur = sut.params_of(g)
         Limpl.append(float(ref.gmm_logpdf(X, *cur).mean()))
-        g.fit(data_arg(case))
+        fit(g, case)
         traj.append(sut.params_of(g))
     Limpl.append(float(ref.gmm_logpdf(X, *sut.params_of(g)).mean()))
     inc = [Limpl[k + 1] - Limpl[k] for k in range(K)]
     strictly = sum(1 for d in inc if d > 1e-9 * (1 + abs(Limpl[0])))
     ctx.note(strictly >= 2 and init["C"] >= 2, "upd:%d%d%d" % tuple(int(u) for u in upd),
-             "dask" if case["dask"] else "numpy", "floor-free" if not any(active[1:K + 1]) else "floor-active")
+             ("dask-isolated" if case.get("isolate") else "dask") if case["dask"] else "numpy", "floor-free" if not any(active[1:K + 1]) else "floor-active")
     for k in range(K):
         if active[k + 1]:
             continue
@@ -137,7 +150,7 @@ def c_traj(ctx, case):
         return
     # one fit with cap K == K resumed steps == reference trajectory
     g2 = machine(init, upd, None, K)
-    g2.fit(data_arg(case))
+    fit(g2, case)
     model_tol(ctx, sut.params_of(g2), traj[-1], X, "fit(cap=K) vs K resumed steps", 1e-9)
     model_tol(ctx, sut.params_of(g2), models[K], X, "fit(cap=K) vs reference trajectory", 1e-6)
 
@@ -151,6 +164,7 @@ def g_stop(draw):
     if c["cap"] is None and c["thr"] < 1e-6:
         c["thr"] = 1e-4
     c["dask"] = gen.boolean(draw)
+    c["isolate"], c["order_seed"] = gen.boolean(draw), gen.integer(draw, 0, 999)
     c["chunks"] = gen.composition(draw, c["X"].shape[0], max_parts=6)
     return c
 
@@ -171,7 +185,7 @@ def c_stop(ctx, case):
     if any(active[1:kstar + 2]):
         ctx.discard("floor active (trajectory ill-conditioned)")
     g = machine(init, upd, thr, cap)
-    g.fit(data_arg(case))
+    fit(g, case)
     got = sut.params_of(g)
 
     def dist(a, b):
